@@ -97,6 +97,13 @@ pub fn apply_ufn_pred(inner: Inner, f: UFn, v: &Val) -> bool {
     match (inner, f) {
         (Inner::Int(t), UFn::IsEven) | (Inner::Int(t), UFn::CIsEven) => int_pred!(t, v, |x| ulib::is_even(&x)),
         (Inner::Int(t), UFn::Not13) => int_pred!(t, v, |x| ulib::not_13(&x)),
+        // partial predicates: outside their domain the real function panics. The reference extends them
+        // with `true` there; the grammar guarantees an earlier validator is violated by every such value,
+        // so the extension is never the *first* violation and cannot be observed through `construct`.
+        (Inner::Int(_), UFn::InvSmall) if matches!(v, Val::I(0) | Val::U(0)) => true,
+        (Inner::Int(t), UFn::InvSmall) => int_pred!(t, v, |x| ulib::inv_small(&x)),
+        (Inner::Str, UFn::FirstNotX) | (Inner::Cow, UFn::FirstNotX) if v.as_str().is_empty() => true,
+        (Inner::Str, UFn::FirstNotX) | (Inner::Cow, UFn::FirstNotX) => ulib::first_not_x(v.as_str()),
         (Inner::F32, UFn::IsIntegral) => ulib::is_integral(&v.as_f32()),
         (Inner::F64, UFn::IsIntegral) => ulib::is_integral(&v.as_f64()),
         (Inner::Str, UFn::NoX) | (Inner::Cow, UFn::NoX) => ulib::no_x(v.as_str()),
